@@ -544,6 +544,23 @@ func TestC12Sweep(t *testing.T) {
 			}
 		}
 	}
+	// ... and a transient read timeout at each of the last reads of that stream: under TLS 1.2 the connection can hand over
+	// the last data together with the timeout that interrupts the reading of the close notification behind it
+	for _, tls12 := range []bool{true, false} {
+		for _, chunk := range []int{2, 3, 4, 5, 6, 7, 9, 13, 64} {
+			var probe *c12Obs
+			pc := &c12Case{Stream: st, TLS: true, TLS12: tls12, SenderEnd: true, Coalesce: true, ReadChunk: chunk}
+			synctest.Test(t, func(t *testing.T) { probe = runC12(pc) })
+			for i := max(0, probe.Reads-70); i <= probe.Reads+1; i++ {
+				plan := make([]Fault, 0, i+1)
+				for k := 0; k < i; k++ {
+					plan = append(plan, Fault{Op: FPass})
+				}
+				plan = append(plan, Fault{Op: FTimeout})
+				run(&c12Case{Stream: st, TLS: true, TLS12: tls12, SenderEnd: true, Coalesce: true, ReadChunk: chunk, ReadPlan: plan})
+			}
+		}
+	}
 	// a receiver that stays away for longer than one, two and three write polls while the sender (with a context that
 	// lives on) sits in the middle of an envelope: the write resumes after each poll, nothing is lost or repeated
 	for _, cap := range []int{16, 64, 200, 1024} {
